@@ -3,6 +3,7 @@ test binary; shards apply to the thorough tier (rapid is single-core)."""
 
 PROPS = {
     "C01": {
+        "level_text": "Exploration: the round trip held on every generated (configuration, type definition, value) triple, compared with a normalisation model that never calls plenc. Types are the 'programs' here, so the search is over type definitions as much as values; boundaries of every varint / length encoding up to 2^21 are placed deliberately. It says nothing about types, sizes or values outside the generated ranges.",
         "rule": ("rapid draws (Plenc config of 4) x (type definition: run-time struct/slice/map/pointer compositions with tag options, "
                  "json tags, skipped fields, plus compiled named/recursive/generic/embedded catalog types) x (1-3 boundary-biased values); "
                  "each value is marshalled and unmarshalled on a fresh and on a long-lived instance and compared with the documented "
@@ -11,6 +12,7 @@ PROPS = {
         "jobs": [{"run": "^TestC01", "shards": 64, "quick_shards": 4, "timeout_quick": 600, "timeout_thorough": 3000}],
     },
     "C02": {
+        "level_text": 'Exploration against an independent reference encoder (self-tested on all 19 golden files each run): byte equality up to map order in both directions (encode, and decode with permuted / interleaved fields). Right level because the hazard is a consistent change to both directions, which a round trip cannot see but an independent definition of the format can.',
         "rule": ("same generator as C01 (config x type definition x values). Oracle: the harness's reference encoder, written from README/wire.go/"
                  "golden files and self-tested against all 19 golden files on every run; Marshal output must equal it byte for byte "
                  "(after sorting map entries with a strict type-guided walker when a map has >1 entry); and Unmarshal of the reference encoding "
@@ -19,6 +21,7 @@ PROPS = {
         "jobs": [{"run": "^TestC02", "shards": 64, "quick_shards": 4, "timeout_quick": 600, "timeout_thorough": 3000}],
     },
     "C18": {
+        "level_text": 'Exploration with large exhaustive parts: all bit-length boundaries, all tags to index 4096, every byte string up to length 2 (quick) / 3 (thorough) through Skip, and in the thorough tier all 2^32 32-bit values; differential against encoding/binary. Exhaustive for those sub-spaces only.',
         "rule": ("(1) exhaustive: every 2^k, 2^k±1, 2^k±2 and the extremes as uint64/int64/negated; all tags for wire types 0..5 x indexes 0..4096 and "
                  "boundaries to 2^28; every byte string of length <=2 (quick) / <=3 (thorough) x wire types 0..7 through Skip; thorough: all 2^32 "
                  "32-bit values. (2) rapid: uniform 64-bit values, tags, and for Skip well-formed fields of every wire type followed by arbitrary "
@@ -33,6 +36,7 @@ PROPS = {
         ],
     },
     "C05": {
+        "level_text": 'Exploration of the codec laws on every codec reachable from generated types plus the exported codecs; deterministic algebraic oracle (Size == len(Append), framing identity, Read consumes the body).',
         "rule": ("same (config x type x values) generator as C01; for each case every codec reachable from CodecForType is obtained by walking "
                  "the type and asking plenc for the codec of each sub-type with its tag option, and applied to the matching sub-value "
                  "(respecting the callers' preconditions: tagged forms only when !Omit, map pointer on write). Laws: Size(nil)==len(Append(nil)); "
@@ -43,6 +47,7 @@ PROPS = {
         "jobs": [{"run": "^TestC05", "shards": 64, "quick_shards": 4, "timeout_quick": 600, "timeout_thorough": 3000}],
     },
     "C06": {
+        "level_text": 'Exploration over (value, prefix, capacity mode, calling convention, repetitions) with the metamorphic oracle Marshal(buf,v) == buf || Marshal(nil,v).',
         "rule": ("(config x type x value) as C01 with extra weight on values that encode to nothing and on by-value pointer-shaped structs "
                  "(single pointer/map field, nested wrappers); x prefix of 0-40 arbitrary bytes x capacity mode {cap==len, +1, exact fit, "
                  "exact fit-1, large} x {by value, by pointer} x 1-4 repetitions re-using the returned buffer. Oracle: result == prefix || "
@@ -51,6 +56,7 @@ PROPS = {
         "jobs": [{"run": "^TestC06", "shards": 64, "quick_shards": 4, "timeout_quick": 600, "timeout_thorough": 3000}],
     },
     "C09": {
+        "level_text": 'Exploration with a presence-focused generator; oracle at three levels (decoded presence, field occurrence in the bytes, Descriptor flags).',
         "rule": ("presence-focused generator: structs (nested up to 3 levels) whose fields are pointers to every leaf kind / small structs / "
                  "slices, the five null types, maps with pointer, null-typed and plain values (default and proto form), plus plain "
                  "counterparts; values weighted towards present-but-zero pointees (&0, &\"\", &[]T{}, &time.Time{}, &struct{}{}), zero map keys "
@@ -61,6 +67,7 @@ PROPS = {
         "jobs": [{"run": "^TestC09", "shards": 32, "quick_shards": 4, "timeout_quick": 600, "timeout_thorough": 3000}],
     },
     "C11": {
+        "level_text": 'Exploration with address-range and behavioural oracles (overwrite every caller buffer, re-check every result ever returned), including populated targets and long interning histories.',
         "rule": ("(config x type x 1-3 values) as C01 on a long-lived instance (interning tables / pools with history), input buffers with 0-64 bytes "
                  "of spare capacity, destination prefixes. Unmarshal: input bytes unchanged; no string / slice / map key reachable in the result "
                  "has its data inside [buf, buf+cap); the observed result is identical before and after the whole buffer is overwritten and "
@@ -70,6 +77,7 @@ PROPS = {
         "jobs": [{"run": "^TestC11", "shards": 32, "quick_shards": 4, "timeout_quick": 600, "timeout_thorough": 3000}],
     },
     "C03": {
+        "level_text": "Exploration over generated schema edit scripts (remove / add / rename / reorder at every depth) with the expected result computed on the harness's value model; skipped wire forms are counted per kind. Holds on the pairs generated; hand-written pairs cover recursive types.",
         "rule": ("S = generated struct type (as C01, top-level struct, up to 8 fields) or a compiled catalog type; S' = S after a generated edit "
                  "script applied recursively inside nested structs, slice elements, map values and pointer targets: remove fields (every wire "
                  "type), add fields of any kind under indexes unused by S (including lower ones), rename, reorder declarations; plus hand-written "
@@ -80,6 +88,7 @@ PROPS = {
         "jobs": [{"run": "^TestC03", "shards": 64, "quick_shards": 4, "timeout_quick": 600, "timeout_thorough": 3000}],
     },
     "C10": {
+        "level_text": 'Model-based (stateful) exploration: operation sequences against one long-lived instance with a merge model per target as invariant, including failed decodes in the history.',
         "rule": ("stateful / model-based: a case is (config, 1-3 generated struct types, 3-14 operations) run against one long-lived Plenc that also "
                  "carries the history of all earlier cases. Operations: marshal(v) into a buffer pool, newTarget(prior value), "
                  "decodeInto(existing target), decodeFresh, scribble (overwrite a used input buffer, then refill), remarshal into buf[:0]. "
@@ -91,6 +100,7 @@ PROPS = {
         "jobs": [{"run": "^TestC10", "shards": 32, "quick_shards": 4, "timeout_quick": 600, "timeout_thorough": 3000}],
     },
     "C12": {
+        "level_text": 'Exploration across all four option combinations with an independent standard-protobuf reader, the reference encoder and a locality (metamorphic) check per switch.',
         "rule": ("struct types from the protobuf-expressible profile (indexes >=1, every map field tagged proto, no null types; slices, nested "
                  "structs, pointers, named and recursive catalog types allowed) x values without nil slice entries; every case is run under "
                  "all four option combinations. Oracles: (a) with both options on the bytes are accepted by an independent standard-protobuf "
@@ -103,6 +113,7 @@ PROPS = {
         "jobs": [{"run": "^TestC12", "shards": 32, "quick_shards": 4, "timeout_quick": 600, "timeout_thorough": 3000}],
     },
     "C04": {
+        "level_text": 'Exploration with exhaustive sub-spaces: every input up to 4 (quick) / 5 (thorough) symbols over a 16-byte alphabet against 45 catalog types is enumerated completely; beyond that truncations, structural mutations with hostile varints, random bytes and coverage-guided fuzzing. Oracle: no panic / fault / hang, bounded allocation, input untouched, read containment. Exhaustive only for the enumerated sub-space.',
         "rule": ("targets: a catalog of 45 representative types (incl. field indexes 8192 and 70000, a 12-field struct) (every leaf kind, packed/fixed/counted/proto slices, maps incl. struct keys and "
                  "pointer values, nested and recursive structs, both time codecs, null types) plus generated types (as C01). Inputs: (1) exhaustive: "
                  "every string of length <=4 (quick) / <=5 (thorough) over the alphabet {00 01 02 03 05 07 08 0a 0b 0d 10 12 1a 7f 80 ff} against "
@@ -121,6 +132,7 @@ PROPS = {
         ],
     },
     "C15": {
+        "level_text": "Exploration over call trees from a grammar plus exhaustive single-byte strings; oracle is encoding/json's token stream, so validity and content are checked independently of the outputter's own formatting.",
         "rule": ("call trees from a grammar: value := Int64 | Uint64 | Float64 | Float32 | String | Bool | Time | Raw(number literal) | "
                  "object{(key,value)*} | array{value*}, depth <=6, width <=5, empty containers, strings and keys from a pool of JSON-hostile "
                  "values (quotes, backslashes, every C0 control, DEL, U+2028/9, astral, invalid UTF-8), arbitrary UTF-8, arbitrary bytes and - "
@@ -133,6 +145,7 @@ PROPS = {
                  {"run": "^$", "fuzz": "^FuzzC15$", "fuzztime": "60s", "workers": 8, "shards": 1, "thorough_only": True, "timeout_thorough": 900}],
     },
     "C14": {
+        "level_text": "Exploration over type definitions: plenc's Descriptor compared node by node with one derived from the definition alone. Descriptors are pure functions of the type, so the only limit is the generator's reach (F10 excludes recursive types).",
         "rule": ("type definitions only: generated struct/slice/map/pointer compositions (up to 8 fields per struct, json tags with and without "
                  "names/options, flat/intern/proto options, skipped and unexported fields, null types) and compiled named / generic / embedded "
                  "catalog types, under the 4 configs. Oracle: plenc's Descriptor compared node by node with the descriptor the harness derives from "
@@ -143,6 +156,7 @@ PROPS = {
         "jobs": [{"run": "^TestC14", "shards": 32, "quick_shards": 4, "timeout_quick": 600, "timeout_thorough": 3000}],
     },
     "C13": {
+        "level_text": 'Exploration: Descriptor-driven JSON compared with a JSON data-model rendering computed from the value, for the descriptor taken directly and restored through plenc and encoding/json. Recursive types are an open finding (F10) and excluded by construction.',
         "rule": ("(type x 1-2 values) from the accepted profile in the default configuration, finite floats, times in years 1..9999; excluded by "
                  "named predicates: proto-tagged fields (the Descriptor carries no marker for the repeated form), negative values in flat fields "
                  "narrower than 64 bits, json:\"-\", recursive types (open finding F10, counted). The Descriptor is used directly, after "
@@ -155,6 +169,7 @@ PROPS = {
         "jobs": [{"run": "^TestC13", "shards": 32, "quick_shards": 4, "timeout_quick": 600, "timeout_thorough": 3000}],
     },
     "C16": {
+        "level_text": 'Exploration over JSON-model trees in five positions with round-trip, neighbour-field, independent wire walk and descriptor oracles.',
         "rule": ("JSON-model trees: nil, bool, int (boundary-biased), float64 (by bits, incl. -0, NaN, Inf), strings (JSON-hostile pool, arbitrary "
                  "bytes), json.Number (valid and invalid text), []any and map[string]any to depth 5 / width 5 with empty keys and empty or nil "
                  "containers anywhere; the root is a container. Positions: top level by value and by pointer, struct field between two other "
@@ -167,6 +182,7 @@ PROPS = {
         "jobs": [{"run": "^TestC16", "shards": 16, "quick_shards": 4, "timeout_quick": 600, "timeout_thorough": 3000}],
     },
     "C08": {
+        "level_text": 'Exploration over type definitions with injected hazards; the must-refuse verdict is derived from the statement alone; any codec that is returned must pass a smoke round trip. Definitions outside the hazard grammar are not covered.',
         "rule": ("definitions from a hazard-injecting generator: structs whose fields are accepted types (as C01) or, with probability 1/6, a type "
                  "the statement says must be refused - every unsupported kind (complex, array, chan, func, interface, error, uintptr, "
                  "unsafe.Pointer) as field / pointer target / slice element / map key / map value, slices of float pointers, slices of slices of "
@@ -182,6 +198,7 @@ PROPS = {
         "jobs": [{"run": "^TestC08", "shards": 32, "quick_shards": 4, "timeout_quick": 600, "timeout_thorough": 3000}],
     },
     "C17": {
+        "level_text": 'Exploration over sets of instances with generated options and registrations; byte-exact oracle from the reference encoder parameterised per instance, plus non-interference after later registrations and equivalence of the package-level functions with a default instance.',
         "rule": ("sets of 2-4 instances with generated option bits and generated registrations of harness-defined marker codecs (a string-kind codec "
                  "that prefixes a per-registration marker byte for named type MStr; a varint codec adding a per-registration offset for named type "
                  "MInt, untagged and under the tag 'off'; BQTimestampCodec for time.Time), x a struct type placing those types as field, pointer "
@@ -195,6 +212,7 @@ PROPS = {
         "jobs": [{"run": "^TestC17", "shards": 32, "quick_shards": 4, "timeout_quick": 600, "timeout_thorough": 3000}],
     },
     "C07": {
+        "level_text": 'Exploration over schedules: the harness owns the interleaving at instrumented yield points (rapid-drawn choice lists, plus complete enumeration of all <=1 / <=2-preemption schedules of two goroutines for fixed op pairs) and additionally runs free under the race detector. Interleavings inside runtime primitives or between instructions without a yield point are only seen by the race detector on the schedules that happened to run; no liveness claim.',
         "rule": ("schedules are generated inputs. (1) owned schedule: 2-4 goroutines, each with one op (Marshal / Unmarshal / CodecForType) on a type "
                  "of one family (self-recursive via slice, via pointer, via pointer slice, via map value; mutually recursive; 3-cycle; deep "
                  "non-recursive nesting; interned fields + struct-keyed maps), all on ONE fresh Plenc so every run is a first use; goroutines park "
@@ -213,6 +231,7 @@ PROPS = {
         ],
     },
     "C19": {
+        "level_text": 'Exploration over decode histories (sequential, owned schedule with a yield between table miss and insert, free-running under the race detector) with a twin type without the option as oracle; table sizes up to 1100 (quick) / 17000 (thorough) distinct strings.',
         "rule": ("twin run-time struct types identical except for the intern option (several interned string / named string / null.String fields, "
                  "interned fields inside slice elements, map values and behind pointers). Histories: per goroutine 2-8 values whose strings come "
                  "from a small alphabet (empty, shared prefixes, binary, 127/128/300 bytes, fresh random ones) so repeats after table growth are "
@@ -228,6 +247,7 @@ PROPS = {
         ],
     },
     "C20": {
+        "level_text": "Exploration over generated Go source files and flag combinations, executing the real binary; AST-level oracle for 'nothing but tags changed', per-field tag rules, gofmt fixed point, type check, plenc acceptance, idempotence. Sources are small and import nothing.",
         "plenctag": True,
         "rule": ("Go source files rendered from a generated model: 1-5 struct declarations (top-level, generic, function-local, var of anonymous "
                  "struct type, composite literal) with nested anonymous struct fields; fields single, multi-name, embedded (value and pointer), "
